@@ -424,6 +424,18 @@ def ob_roundtrip(sim, mode, dynamic, variant=None):
                 if e > 1e-8:
                     raise Refuted(f"{sim}/{mode}: replaying the load of step 1 from restored iteration 0 gives a solution differing from stored iteration 1 by {e:.3e} (relative)",
                                   cex=dict(history=hist + ["Set_Iter(0)", "Solve(load 1)"]), signature=f"roundtrip:{sim}:replay", replay=dict(confirmed=True, rel_err=e))
+        # (3c) restore an iteration and save again WITHOUT solving: what is stored is that iteration (fields and internal variables; solver statistics aside)
+        s.Set_Iter(0)
+        s.Save_Iter()
+        hist.append("Set_Iter(0); Save_Iter")
+        again = _deep_results(s, -1)
+        for key, x in saved_results[0].items():
+            if isinstance(x, np.ndarray) and x.dtype.kind in "fc" and x.size > 1:
+                y = again.get(key)
+                if not (isinstance(y, np.ndarray) and y.shape == x.shape and np.array_equal(x, y)):
+                    e = float(np.abs(np.asarray(y) - x).max()) if isinstance(y, np.ndarray) and y.shape == x.shape else float("inf")
+                    raise Refuted(f"{sim}{'/' + variant if variant else ''}/{mode}: Set_Iter(0) followed by Save_Iter() (no solve in between) stores a '{key}' that differs from iteration 0 (max difference {e:.3e}): "
+                                  f"a trial quantity of the last solve is committed", cex=dict(history=hist, key=key), signature=f"roundtrip:{sim}:resave:{key}", replay=dict(confirmed=True, max_diff=e))
         # (4) restore an old iteration, solve and save again: the stored iterations 0..2 are still what they were
         s.Set_Iter(0)
         _bc(s, sim, 5)
